@@ -144,6 +144,8 @@ def _descend(sp, case, sig, sigmemo, endmemo, budget):
             end = endmemo[key]
             break
         path.append(key)
+        if len(path) > 5000:
+            raise RuntimeError("HARNESS ERROR: descent along `smaller` does not terminate (cycle in the shrinking relation?)")
         nxt = None
         for nb in sp.smaller(cur):
             k = core.canon(nb)
